@@ -314,5 +314,123 @@ def readerBlockedAtClose (sent reqs : Nat) : Bool := decide (sent - reqs > disco
 def discoverMayDie (fixed : Bool) (sent reqs : Nat) : Bool :=
   !fixed && readerBlockedAtClose sent reqs
 
+/-! ## StartWorkConn addresses on the client (client/proxy/proxy.go HandleTCPWorkConnection)
+
+      if m.SrcAddr != "" && m.SrcPort != 0 {
+        if m.DstAddr == "" { m.DstAddr = "127.0.0.1" }
+        srcAddr, _ := net.ResolveTCPAddr("tcp", net.JoinHostPort(m.SrcAddr, …))      -- error DISCARDED
+        dstAddr, _ := net.ResolveTCPAddr("tcp", net.JoinHostPort(m.DstAddr, …))
+        connInfo.SrcAddr = srcAddr; connInfo.DstAddr = dstAddr                      -- net.Addr ← (*net.TCPAddr)(nil)
+      }
+      if baseCfg.Transport.ProxyProtocolVersion != "" && m.SrcAddr != "" && m.SrcPort != 0 {
+        h := &pp.Header{Command: pp.PROXY, SourceAddr: connInfo.SrcAddr, DestinationAddr: connInfo.DstAddr}
+        if strings.Contains(m.SrcAddr, ".") { h.TransportProtocol = pp.TCPv4 } else { h.TransportProtocol = pp.TCPv6 }
+        if … == "v1" { h.Version = 1 } else if … == "v2" { h.Version = 2 }
+        connInfo.ProxyProtocolHeader = h
+      }
+      … dial the local service …
+      if connInfo.ProxyProtocolHeader != nil {
+        if _, err := connInfo.ProxyProtocolHeader.WriteTo(localConn); err != nil { workConn.Close(); return } }
+
+  go-proxyproto v0.7.0: formatVersion1 does `sourceAddr, sourceOK := header.SourceAddr.(*net.TCPAddr)` (likewise dest),
+  returns ErrInvalidAddress if an assertion fails, then loads `sourceAddr.IP`, `destAddr.IP`; formatVersion2 goes through
+  Header.IPs → TCPAddrs (the same assertions) → `sourceAddr.IP`.  A typed nil pointer inside the interface PASSES the
+  assertion and the load is a nil dereference — in the work connection's goroutine, which has no recover: frpc dies.
+  An untyped nil fails the assertion: ErrInvalidAddress, the work connection is closed. -/
+
+/-- repaired variant (hooks/C16-fix-startworkconn-addr.patch): an address that does not resolve is not stored.
+    `false` = the code as it is in /repo now. -/
+def startWorkAddrIsFixed : Bool := false
+
+/-- what net.ResolveTCPAddr made of host:port -/
+inductive AddrRes | v4 | v6 | bad
+  deriving DecidableEq, Repr
+
+/-- the net.Addr interface value in connInfo / the header -/
+inductive AddrVal
+  | absent                 -- untyped nil
+  | typedNil               -- (*net.TCPAddr)(nil)
+  | tcp (isV4 : Bool)      -- a resolved address (isV4: IP.To4() != nil)
+  deriving DecidableEq, Repr
+
+def storeAddr (fixed : Bool) : AddrRes → AddrVal
+  | .v4 => .tcp true
+  | .v6 => .tcp false
+  | .bad => if fixed then .absent else .typedNil
+
+/-- transport.proxyProtocolVersion of the proxy -/
+inductive PPVer | unset | v1 | v2 | other
+  deriving DecidableEq, Repr
+
+inductive SwcOut
+  | crash      -- nil dereference in go-proxyproto: the process dies
+  | hdr        -- the header is written to the local service, the connections are joined
+  | nohdr      -- no header; the connections are joined
+  | closed     -- WriteTo returned an error: the work connection is closed
+  deriving DecidableEq, Repr
+
+/-- Header.WriteTo for version 1 and 2 (the address part is the same in both: assert, load, To4 / To16) -/
+def headerWrite (ver : PPVer) (protoV4 : Bool) (src dst : AddrVal) : SwcOut :=
+  match ver with
+  | .unset => .nohdr
+  | .other => .closed                                   -- Version 0: ErrUnknownProxyProtocolVersion
+  | _ =>
+    match src, dst with
+    | .absent, _ => .closed                             -- assertion fails: ErrInvalidAddress
+    | _, .absent => .closed
+    | .typedNil, _ => .crash                            -- sourceAddr.IP
+    | _, .typedNil => .crash                            -- destAddr.IP
+    | .tcp s4, .tcp d4 =>
+      if protoV4 then (if s4 && d4 then .hdr else .closed)   -- To4() == nil: ErrInvalidAddress
+      else .hdr                                              -- To16() of an IP is never nil
+
+/-- HandleTCPWorkConnection as far as the addresses go.  `srcGiven` = m.SrcAddr != "" && m.SrcPort != 0,
+    `srcHasDot` = strings.Contains(m.SrcAddr, "."), src / dst = what the resolver made of them -/
+def handleStartWork (fixed : Bool) (ver : PPVer) (srcGiven srcHasDot : Bool) (src dst : AddrRes) : SwcOut :=
+  if !srcGiven then .nohdr
+  else headerWrite ver srcHasDot (storeAddr fixed src) (storeAddr fixed dst)
+
+/-! ## the reader of a udp proxy's user socket against the proxy's Close (pkg/proto/udp ForwardUserConn, server/proxy/udp.go)
+
+  ForwardUserConn, the writer half, runs in its own goroutine (no recover):
+      for { n, remoteAddr, err := udpConn.ReadFromUDP(buf); if err != nil { return }       (label recv)
+            udpMsg := NewUDPPacket(…)
+            select { case sendCh <- udpMsg: default: } }                                   (label send)
+  UDPProxy.Close (CloseProxy, session teardown — another goroutine): … pxy.udpConn.Close()  (label closeSock)
+      close(pxy.checkCloseCh); close(pxy.readCh); close(pxy.sendCh)                         (label closeCh)
+  A datagram read just before closeSock is handed over after closeCh: send on a closed channel.  The same function
+  serves the sudp visitor on the client (client/visitor/sudp.go, channel closed by SUDPVisitor.Close). -/
+
+/-- repaired variant (hooks/C16-fix-udp-forward-send.patch): the send is wrapped in errors.PanicToError, as in
+    Forwarder.  `false` = the code as it is in /repo now. -/
+def udpForwardSendIsFixed : Bool := false
+
+structure Fwd where
+  sockOpen : Bool := true
+  chOpen : Bool := true
+  inHand : Bool := false      -- a datagram has been read and not yet handed over
+  running : Bool := true      -- the goroutine has not returned
+  deriving DecidableEq, Repr
+
+inductive FLabel | recv | send | closeSock | closeCh
+  deriving DecidableEq, Repr
+
+def fstep (recovered : Bool) (st : Fwd × Outcome) : FLabel → Fwd × Outcome
+  | .recv =>
+    if st.1.running && !st.1.inHand then
+      (if st.1.sockOpen then ({ st.1 with inHand := true }, st.2) else ({ st.1 with running := false }, st.2))
+    else st
+  | .send =>
+    if st.1.running && st.1.inHand then
+      (if st.1.chOpen then ({ st.1 with inHand := false }, st.2)
+       else if recovered then ({ st.1 with running := false, inHand := false }, st.2)
+       else (st.1, .processDies))
+    else st
+  | .closeSock => ({ st.1 with sockOpen := false }, st.2)
+  | .closeCh => ({ st.1 with chOpen := false }, st.2)
+
+def frun (recovered : Bool) (f : Fwd) (ls : List FLabel) : Fwd × Outcome :=
+  ls.foldl (fstep recovered) (f, .alive)
+
 end Crash
 end Frp
